@@ -51,23 +51,20 @@ Hypothesis conc_exec_ext : forall c k st n s items s' rs,
 
 Lemma node_prep_ext c n s s' r : node_prep o c n s = (s', r) -> ext s s'.
 Proof.
-  unfold node_prep. destruct (u_prep c); intros H;
-    try (inv H; apply ext_refl);
-    step_in H; inv H; eapply emit_ext; eauto.
+  unfold node_prep. destruct (has_prep c); intros H;
+    [step_in H; inv H; eapply emit_ext; eauto | inv H; apply ext_refl].
 Qed.
 
 Lemma node_exec_ext c n s a s' r : node_exec o c n s a = (s', r) -> ext s s'.
 Proof.
-  unfold node_exec. destruct (u_exec c); intros H;
-    try (inv H; apply ext_refl);
-    step_in H; inv H; eapply emit_ext; eauto.
+  unfold node_exec. destruct (has_exec c); intros H;
+    [step_in H; inv H; eapply emit_ext; eauto | inv H; apply ext_refl].
 Qed.
 
 Lemma node_post_ext c n s p x s' r : node_post o c n s p x = (s', r) -> ext s s'.
 Proof.
-  unfold node_post. destruct (u_post c); intros H;
-    try (inv H; apply ext_refl);
-    step_in H; inv H; eapply emit_ext; eauto.
+  unfold node_post. destruct (has_post c); intros H;
+    [step_in H; inv H; eapply emit_ext; eauto | inv H; apply ext_refl].
 Qed.
 
 Lemma node_fallback_ext c n s p e s' r : node_fallback o c n s p e = (s', r) -> ext s s'.
